@@ -543,4 +543,24 @@ def table8(ctx) -> List[Ob]:
             out.append(ok("TABLE-8", bf.qualname, key, ctx.where(bf, fcalls[0]), f"both are {A.unparse(stored[0])}"))
         else:
             out.append(bad("TABLE-8", bf.qualname, key, ctx.where(bf, fcalls[0]), f"the flow analysis reads {A.unparse(fcalls[0].args[0])[:40]} but the ByteFlow stores {A.unparse(stored[0])[:40]}: block offsets and the stored instructions can disagree"))
+    # the function that is disassembled is the one that was handed in
+    key = "the code that is disassembled is the caller's function"
+    params = [p.arg for p in bf.params if p.arg not in ("self", "cls")]
+    dcalls = [c for c in A.walk_no_nested(bf.node) if isinstance(c, ast.Call) and (A.dotted(c.func) or "").split(".")[-1] in ("Bytecode", "get_instructions") and c.args]
+    if not params or not dcalls:
+        out.append(unresolved("TABLE-8", bf.qualname, key, ctx.where(bf), "cannot see which object from_bytecode disassembles"))
+    else:
+        arg = dcalls[0].args[0]
+        rebinds = [n_ for n_ in A.walk_no_nested(bf.node) if isinstance(n_, ast.Name) and n_.id == params[0] and isinstance(n_.ctx, (ast.Store, ast.Del))]
+        if isinstance(arg, ast.Name) and arg.id == params[0] and not rebinds:
+            out.append(ok("TABLE-8", bf.qualname, key, ctx.where(bf, dcalls[0]), f"{A.unparse(dcalls[0])[:50]} on the parameter as given"))
+        elif isinstance(arg, ast.Name) and arg.id == params[0]:
+            out.append(bad("TABLE-8", bf.qualname, key, ctx.where(bf, rebinds[0]), f"'{A.unparse(A.enclosing_stmt(rebinds[0]) or rebinds[0])[:60]}' replaces the function before it is disassembled: for some callables (a decorated function with __wrapped__, a partial, a bound method) the graph is that of another code object than the one the caller asked about"))
+        else:
+            src = see_through(ctx, bf, arg) or arg
+            names = {x.id for x in ast.walk(src) if isinstance(x, ast.Name)}
+            if params[0] in names and isinstance(src, (ast.Name, ast.Attribute)) and (not isinstance(src, ast.Attribute) or src.attr == "__code__"):
+                out.append(ok("TABLE-8", bf.qualname, key, ctx.where(bf, dcalls[0]), f"disassembles {A.unparse(src)[:40]}"))
+            else:
+                out.append(bad("TABLE-8", bf.qualname, key, ctx.where(bf, dcalls[0]), f"the listing is taken from {A.unparse(src)[:50]}, not from the function that was handed in: the graph can describe another code object"))
     return out
